@@ -319,6 +319,7 @@ func workloadTight(seed int64, iters int) [][]byte {
 	copy(kenc[:], ev.Bytes(r, 16))
 	copy(kint[:], ev.Bytes(r, 16))
 	msg := ev.Bytes(r, 33+int(seed%7))
+	longMsg := ev.Bytes(r, 2300+int(seed)*512)
 	var outs [][]byte
 	// a UE context of its own for the downlink direction (tglib.NASDecode): algorithms and keys differ per goroutine
 	ue := tglib.NewRanUeContext(fmt.Sprintf("imsi-20893%010d", seed), seed, uint8(1+seed%2), uint8(1+seed%2))
@@ -348,6 +349,16 @@ func workloadTight(seed int64, iters int) [][]byte {
 			security.NASEncrypt(alg, kenc, uint32(i), 1, uint8(i%2), c)
 			mac, _ := security.NASMacCalculate(alg, kint, uint32(i), 1, uint8(i%2), msg)
 			outs = append(outs, c, mac)
+		}
+		if i%16 == 9 && seed%2 == 0 {
+			// every other worker also ciphers long messages (several KiB: many keystream blocks per call) while the others keep
+			// calling the same primitives
+			for _, alg := range []uint8{1, 2} {
+				c := append([]byte{}, longMsg...)
+				security.NASEncrypt(alg, kenc, uint32(i), 1, 0, c)
+				mac, _ := security.NASMacCalculate(alg, kint, uint32(i), 1, 0, longMsg)
+				outs = append(outs, c[len(c)-64:], c[1000:1064], mac)
+			}
 		}
 		// key derivation function and the complete UE-side derivation, under this goroutine's own key material (the same FC values are
 		// in use by every goroutine at the same time)
